@@ -135,7 +135,7 @@ def check(ctx, rep):
         main = DEPTH if ctx.tier == "quick" else DEPTH + 2
         for dpt in ((main, 6, 4, 3) if why != "combinator" else ((3, 2) if ctx.tier == "quick" else (5, 4, 3))):
             try:
-                ps, it = ctx.paths(m, ci, depth=dpt, immediate_callbacks=True, maxpaths=6000)
+                ps, it = ctx.paths(m, ci, depth=dpt, immediate_callbacks=True, maxpaths=6000, record_field_types=True)
                 if dpt != main:
                     rep.note("%s analysed with inlining depth %d (%d paths)" % (m.qualname, dpt, len(ps)))
                 break
